@@ -15,6 +15,7 @@ own transcripts.
 """
 from __future__ import annotations
 
+import importlib
 import json
 import os
 import random
@@ -409,35 +410,41 @@ class _StreamHarness:
         H = self
         self.lines = []
         self.case = case
-        self.poll_acc = None
         ret = None
         if case["ret"][0] == "size":
             ret = SizeRetention(case["ret"][1])
         elif case["ret"][0] == "age":
             ret = TimeRetention(case["ret"][1] / 1e9)
 
+        def show(recs):
+            return "recs " + " ".join(f"{r.partition}:{r.offset}" for r in (recs or []))
+
+        def answer(event):
+            """what the caller of append()/read()/poll() receives: the value of its reply future"""
+            fut = event.context.get("reply_future")
+            return fut.value if fut is not None and fut.is_resolved else None
+
         class TLog(EventLog):
-            """the real log; the two internal entry points are wrapped only to log when they ran"""
+            """the real log; handle_event is wrapped only to log which segment ran when and what it answered"""
 
             def handle_event(self, event):
                 g = super().handle_event(event)
-                if event.event_type == "RetentionCheck":
-                    return H.after(g, lambda: H.log("retention", f"total {H.log_ent.total_records}"))
+                et = event.event_type
+                if et == "RetentionCheck":
+                    return H.after(g, H.log_retention)
+                if et == "Append":
+                    key = event.context.get("key", "")
+
+                    def appended():
+                        rec = answer(event)
+                        H.log(f"append {int(key[1:])} {key_hash840(key)}", f"app {rec.partition} {rec.offset}")
+                    return H.after(g, appended)
+                if et == "Read":
+                    cx = event.context
+                    return H.after(g, lambda: H.log(
+                        f"read {cx.get('partition', 0)} {cx.get('offset', 0)} {cx.get('max_records', 100)}",
+                        show(answer(event))))
                 return g
-
-            def _do_append(self, key, value):
-                rec = super()._do_append(key, value)
-                H.log(f"append {int(key[1:])} {key_hash840(key)}", f"app {rec.partition} {rec.offset}")
-                return rec
-
-            def _do_read(self, partition_id, offset, max_records):
-                recs = super()._do_read(partition_id, offset, max_records)
-                if H.poll_acc is not None:
-                    H.poll_acc.extend(recs)
-                else:
-                    H.log(f"read {partition_id} {offset} {max_records}",
-                          "recs " + " ".join(f"{r.partition}:{r.offset}" for r in recs))
-                return recs
 
         class TGroup(ConsumerGroup):
             def handle_event(self, event):
@@ -452,13 +459,7 @@ class _StreamHarness:
                 if et == "Poll":
                     mx = event.context.get("max_records", 100)
 
-                    def start():
-                        H.poll_acc = []
-
-                    def done():
-                        recs, H.poll_acc = H.poll_acc, None
-                        H.log(f"poll {ci} {mx}", "recs " + " ".join(f"{r.partition}:{r.offset}" for r in recs))
-                    return H.two_seg(g, None, start, done)
+                    return H.after(g, lambda: H.log(f"poll {ci} {mx}", show(answer(event))))
                 if et == "Commit":
                     offs = event.context.get("offsets", {})
                     return H.after(g, lambda: H.log(
@@ -488,6 +489,14 @@ class _StreamHarness:
                     yield from H.group.commit(cname(op[2]), {int(p): o for p, o in op[3]})
                 elif kind == "poll":
                     yield from H.group.poll(cname(op[2]), op[3])
+                elif kind == "pollc":
+                    # a consumer that commits what it read: next offset of every partition it got records from
+                    recs = yield from H.group.poll(cname(op[2]), op[3])
+                    offs = {}
+                    for r in recs or []:
+                        offs[r.partition] = max(offs.get(r.partition, 0), r.offset + 1)
+                    if offs:
+                        yield from H.group.commit(cname(op[2]), offs)
                 return []
 
         self.worker = Worker("w")
@@ -501,6 +510,14 @@ class _StreamHarness:
 
     def log(self, act, out):
         self.lines.append(" ".join(f"{self.now()} {act} => {out}".split()))
+
+    def log_retention(self):
+        """after a sweep: total_records and what an observer finds in log.partitions[p].records"""
+        kept = []
+        for part in self.log_ent.partitions:
+            offs = [r.offset for r in part.records]
+            kept.append(",".join(map(str, offs)) if offs else "-")
+        self.log("retention", f"total {self.log_ent.total_records} " + " ".join(kept))
 
     def obs_committed(self, cname_):
         g = self.group
@@ -571,7 +588,7 @@ def gen_stream(rng, tier):
         if x < 0.33:
             ops.append([t, "append", rng.randrange(nkeys)])
         elif x < 0.45:
-            ops.append([t, "read", rng.randrange(n + 1), rng.choice([0, 0, 1, 2, 5]), rng.choice([0, 1, 2, 100])])
+            ops.append([t, "read", rng.randrange(n + 1), rng.choice([0, 0, 1, 2, 3, 5]), rng.choice([0, 1, 2, 100])])
         elif x < 0.57:
             c = rng.randrange(4)
             joined.add(c)
@@ -583,11 +600,53 @@ def gen_stream(rng, tier):
             offs = [[rng.randrange(n), rng.choice([0, 1, 1, 2, 3, 5])] for _ in range(rng.choice([1, 2, 3, n]))]
             ops.append([t, "commit", member, offs])
         else:
-            ops.append([t, "poll", member, rng.choice([1, 2, 3, 100])])
+            ops.append([t, rng.choice(["poll", "pollc"]), member, rng.choice([1, 2, 3, 100])])
     return {"family": "stream", "n": n, "ret": ret, "strategy": rng.choice(STRATS),
             "app_lat": rng.choice([0.0, 0.5]), "read_lat": rng.choice([0.0, 0.5]),
             "reb_delay": rng.choice([0.0, 0.5, 1.0]), "poll_lat": rng.choice([0.0, 0.5]),
             "ret_int": rng.choice([1.0, 2.0, 5.0]), "ops": ops}
+
+
+def gen_stream_ret(rng, tier):
+    """retention sweeps (size- and age-based) that trim the head of a partition, followed by reads from offsets
+    above 0 and polls of group members from their committed offsets (members that commit what they read)"""
+    n = rng.choice([1, 1, 2, 3])
+    nkeys = rng.choice([1, 1, 2, 3])
+    if rng.random() < 0.6:
+        ret = ["size", rng.choice([1, 2, 3, 5])]
+    else:
+        ret = ["age", rng.choice([1, 2, 3, 4]) * GRID]
+    members = rng.choice([[0], [0], [0, 1], []])
+    ops = [[0, "join", c] for c in members]
+    t = 2 * GRID
+    appended = 0
+    for _ in range(rng.choice([1, 2, 3] if tier == "quick" else [2, 3, 5])):
+        for _ in range(rng.choice([2, 4, 6, 9])):
+            ops.append([t, "append", rng.randrange(nkeys)])
+            appended += 1
+            if rng.random() < 0.4:
+                t += GRID
+        t += GRID * rng.choice([1, 2, 3, 4, 5])          # usually past the next sweep
+        for _ in range(rng.choice([1, 2, 3, 4])):
+            x = rng.random()
+            c = rng.choice(members) if members and rng.random() < 0.9 else rng.randrange(3)
+            if x < 0.4:
+                off = rng.choice([1, 2, 3, appended // 2, max(0, appended - 2), max(0, appended - 1), appended,
+                                  appended + 1, rng.randrange(appended + 2)])
+                ops.append([t, "read", rng.randrange(n) if rng.random() < 0.95 else n, off,
+                            rng.choice([1, 2, 3, 100, 100, 0])])
+            elif x < 0.75:
+                ops.append([t, "pollc", c, rng.choice([1, 2, 3, 5, 100])])
+            elif x < 0.88:
+                ops.append([t, "poll", c, rng.choice([1, 2, 100])])
+            else:
+                ops.append([t, "commit", c, [[rng.randrange(n), rng.randrange(appended + 2)]]])
+            if rng.random() < 0.5:
+                t += GRID * rng.choice([1, 1, 2])
+    return {"family": "stream", "n": n, "ret": ret, "strategy": rng.choice(STRATS),
+            "app_lat": rng.choice([0.0, 0.0, 0.5]), "read_lat": rng.choice([0.0, 0.5]),
+            "reb_delay": rng.choice([0.0, 0.5, 1.0]), "poll_lat": rng.choice([0.0, 0.5]),
+            "ret_int": rng.choice([1.0, 1.0, 2.0]), "ops": ops}
 
 
 def stream_hdr(case, variant):
@@ -716,6 +775,30 @@ def gen_topic(rng, tier):
     return {"family": "topic", "nsubs": nsubs, "lat_ns": lat_ns, "ops": ops}
 
 
+# ======================================================================================= extension families
+# Components with their own model files live in separate modules (hv/props/c19_<x>.py, Lean
+# HappyModel/C19/<X>*.lean behind `<X>.handle?` in the driver).  A module provides
+#   FAMILY, SLOTS (how many of every 20 generated cases it wants), generate(rng, tier),
+#   run_impl(case), model_block(case, variant, impl_out), judge_block(case, impl_out),
+#   nontrivial_key(case, impl_out), THEOREMS, RULE, TRUSTED, ASSUMPTIONS, HYPOTHESES, PARTIAL
+#   and optionally shrink(case), mutate(case, rng), ENABLED (False keeps it out of generation).
+# Each of the three families found genuine defects in /repo (fixes/C19-win-*.diff, C19-outbox-double-relay.diff,
+# C19-idem-cleanup-chains.diff) and keeps its generator away from the defective interleavings until the patch is applied
+# (module flag RESTRICT_UNTIL_FIXED; witnesses parked in corpus/C19/parked/).  HV_C19_UNRESTRICTED=1 lifts all three.
+if os.environ.get("HV_C19_UNRESTRICTED"):
+    for _v in ("HV_C19_WIN_UNRESTRICTED", "HV_C19_OUTBOX_UNRESTRICTED", "HV_IDEM_UNRESTRICTED"):
+        os.environ.setdefault(_v, "1")
+EXT = {}
+for _name in ("c19_win", "c19_outbox", "c19_idem"):
+    try:
+        _m = importlib.import_module(f"hv.props.{_name}")
+    except ModuleNotFoundError as _e:
+        if _e.name != f"hv.props.{_name}":
+            raise
+        continue
+    EXT[_m.FAMILY] = _m
+
+
 # ======================================================================================= property
 
 
@@ -737,6 +820,9 @@ class C19(core.Property):
             "tier first enumerates every membership of ≤5 consumers × ≤8 partitions for the three strategies, every ordered pair "
             "(5 consumers) and triple (4 consumers) of memberships for sticky. family stream (2/10): ≤36 append/read/join/leave/"
             "commit/poll operations on EventLog + ConsumerGroup through a real Simulation, all strategies, none/size/age retention; "
+            "half of the stream cases are retention rounds: bursts of 2–9 appends over 1–3 keys, a wait past the next size(1–5)/age(0.5–2 s) "
+            "sweep (interval 1–2 s) that trims partition heads, then reads from offsets around the trimmed head / the high watermark with "
+            "limits 0,1,2,3,100 and polls of members that commit what they read (pollc), explicit commits above 0; "
             "non-trivial with an append or a rebalance. family topic (1/10): subscribe/unsubscribe/publish scripts with 1–4 "
             "subscribers; non-trivial when a delivery was received. distinct = distinct case content")
     trusted_base = [
@@ -745,8 +831,10 @@ class C19(core.Property):
         "one private read: MessageQueue._pending_queue[-1] right after publish()'s first segment (the id is "
         "returned only 100 µs later; the returned id is then checked against it)",
         "the engine's ordering of events (C01/C02): the schedule is taken from the real run",
-        "EventLog._do_append / _do_read are overridden in a harness subclass only to log when they ran (results are "
-        "the public Record fields); committed offsets are observed through consumer_lag() and high_watermark()",
+        "EventLog.handle_event / ConsumerGroup.handle_event are wrapped in harness subclasses only to log when a segment ran; "
+        "what an append/read/poll answered is the value of the caller's reply future (public Record fields); retained records "
+        "after a sweep are read from the public log.partitions[p].records; committed offsets are observed through "
+        "consumer_lag() and high_watermark()",
         "md5 of the key computed by the harness (hashlib) and shipped mod 840 as the sharding-hash parameter",
     ]
     assumptions = [
@@ -755,6 +843,10 @@ class C19(core.Property):
         "'no delivery after ack' is about deliveries that START after the acknowledgement; one already in its latency may still arrive",
         "assignment strategies: consumer names and partition ids are duplicate-free (what ConsumerGroup passes)",
         "stream/topic times are on a 0.5 s / integer-ns grid so that the code's float seconds are exact",
+        "read(max_records=0): the clause 'the first min(m, count) records' is judged for m ≥ 1; for m = 0 the code hands out one "
+        "record (its loop tests the bound after appending) and the judge accepts either nothing or that one record",
+        "the committed offset a poll must start from is the largest offset the member ever passed to commit() for the partition "
+        "(commit requests are inputs); consumer_lag() must agree with it",
         "Topic after the fix delivers to every subscriber at the instant publish() returns (t + n·latency)",
     ]
     hypotheses = [
@@ -762,7 +854,7 @@ class C19(core.Property):
         "RedelivLegit: a message_redelivery event exists only for a message delivered before (created by schedule_redelivery)",
         "delivery_reaches_consumer / topic: quiescent end (no delivery still suspended or in the heap)",
         "MQ.fire: the engine resumes a generator exactly `latency` after the yield (C02)",
-        "offsets: schedule times nondecreasing (engine clock, C01); partitions > 0",
+        "offsets / reads / retention: schedule times nondecreasing (engine clock, C01); partitions > 0",
         "key stability: the sharding hash is a function of the key (parameter)",
     ]
 
@@ -777,13 +869,22 @@ class C19(core.Property):
                 self._enum = enum_assign_cases()
             if i < len(self._enum):
                 return self._enum[i]
+        # of every 20 cases the last few go to the extension families, the rest to the core ones
+        slot, base = i % 20, 20
+        for m in EXT.values():
+            if not getattr(m, "ENABLED", True):
+                continue
+            base -= m.SLOTS
+            if slot >= base:
+                return m.generate(rng, tier)
+        i = (i // 20) * base + slot
         k = i % 10
         if k < 5:
             return gen_mq(rng, tier)
         if k < 7:
             return gen_assign(rng, tier)
         if k < 9:
-            return gen_stream(rng, tier)
+            return gen_stream_ret(rng, tier) if rng.random() < 0.5 else gen_stream(rng, tier)
         return gen_topic(rng, tier)
 
     # ------------------------------------------------------------------ implementation
@@ -805,6 +906,8 @@ class C19(core.Property):
             return _StreamHarness(case).run()
         if fam == "topic":
             return _TopicHarness(case).run()
+        if fam in EXT:
+            return EXT[fam].run_impl(case)
         raise ValueError(fam)
 
     def _impl_cached(self, case):
@@ -818,6 +921,8 @@ class C19(core.Property):
     # ------------------------------------------------------------------ model / judge
     def model_block(self, case, variant):
         fam = case["family"]
+        if fam in EXT:
+            return EXT[fam].model_block(case, variant, self._impl_cached(case))
         if fam == "mq":
             # the schedule (time + action of every segment the engine ran) comes from the real run
             sched = [l.split(" => ")[0] for l in self._impl_cached(case) if " => " in l]
@@ -836,6 +941,8 @@ class C19(core.Property):
         if impl_out and impl_out[0].startswith("IMPL-"):
             return None
         fam = case["family"]
+        if fam in EXT:
+            return EXT[fam].judge_block(case, impl_out)
         if fam == "mq":
             return ("judge-mq " + mq_cfg(case, "repaired"), [l for l in impl_out if " => " in l])
         if fam == "assign":
@@ -849,7 +956,7 @@ class C19(core.Property):
                     body.append(o)
             return ("judge-assign", body)
         if fam == "stream":
-            return (f"judge-stream {case['n']}", [l for l in impl_out if " => " in l])
+            return (f"judge-stream {case['n']} {case['ret'][0]} {case['ret'][1]}", [l for l in impl_out if " => " in l])
         if fam == "topic":
             return ("judge-topic", [l for l in impl_out if " => " in l])
         return None
@@ -859,6 +966,8 @@ class C19(core.Property):
 
     def nontrivial_key(self, case, impl_out):
         fam = case["family"]
+        if fam in EXT:
+            return EXT[fam].nontrivial_key(case, impl_out)
         if fam == "mq":
             if any(" recv " in l for l in impl_out):
                 return json.dumps(case, sort_keys=True)
@@ -879,6 +988,10 @@ class C19(core.Property):
 
     def shrink(self, case):
         fam = case["family"]
+        if fam in EXT:
+            if hasattr(EXT[fam], "shrink"):
+                yield from EXT[fam].shrink(case)
+            return
         key = {"mq": "ops", "stream": "ops", "topic": "ops", "assign": "seqs"}.get(fam)
         if key is None:
             return
@@ -907,6 +1020,8 @@ class C19(core.Property):
 
     def mutate(self, case, rng):
         fam = case["family"]
+        if fam in EXT:
+            return EXT[fam].mutate(case, rng) if hasattr(EXT[fam], "mutate") else case
         if fam == "assign":
             seqs = [[[list(c[0]), list(c[1])] for c in seq] for seq in case["seqs"]]
             if not seqs:
@@ -959,8 +1074,18 @@ THEOREMS = [
     "HappyModel.C19.Props.legacy_commit_witness",
     "HappyModel.C19.Props.offsets_gap_free_increasing",
     "HappyModel.C19.Props.key_partition_stable",
+    "HappyModel.C19.Props.read_returns_retained_suffix",
+    "HappyModel.C19.Props.retention_keeps_policy",
     "HappyModel.C19.Props.topic_exactly_once_per_active_subscriber",
     "HappyModel.C19.Props.legacy_topic_witness",
 ]
+C19.partial_theorems = dict(getattr(C19, "partial_theorems", {}) or {})
+for _m in EXT.values():
+    THEOREMS = THEOREMS + list(_m.THEOREMS)
+    C19.rule = C19.rule + "; " + _m.RULE
+    C19.trusted_base = C19.trusted_base + list(_m.TRUSTED)
+    C19.assumptions = C19.assumptions + list(_m.ASSUMPTIONS)
+    C19.hypotheses = C19.hypotheses + list(_m.HYPOTHESES)
+    C19.partial_theorems = {**C19.partial_theorems, **_m.PARTIAL}
 C19.theorems = THEOREMS
 PROPERTY = C19()
